@@ -13,10 +13,11 @@ def main():
     ap.add_argument("--seed", type=int, default=int(os.environ.get("VERIF_SEED", "0")))
     ap.add_argument("--replay")
     ap.add_argument("--jobs", type=int)
+    ap.add_argument("--only", help="development aid: run only shards whose name contains this substring (no evidence written)")
     a = ap.parse_args()
     bootstrap.ensure_deps()
     mod = "checks." + a.prop.lower()
-    sys.exit(run_check(mod, a.tier, a.seed, a.replay, a.jobs))
+    sys.exit(run_check(mod, a.tier, a.seed, a.replay, a.jobs, a.only))
 
 
 if __name__ == "__main__":
